@@ -500,7 +500,7 @@ class Interp:
             if 'f' in last:
                 v.fields[last['f']] = val
                 return
-            if 'idx' in last or 'cidx' in last:
+            if 'idx' in last or 'cidx' in last or 'idxval' in last:
                 i = last.get('cidx')
                 if i is None:
                     iv = last['idxval']
@@ -680,6 +680,22 @@ class Interp:
             return AAgg('(tuple)', [r, ovb])
         return r
 
+    def split_int(self, a, ebits, esigned, n):
+        """little-endian split of an integer into n limbs, keeping symbolic bits and the negation relation where decidable"""
+        def limb(x, i):
+            sh = aval.shr_const(aval.cast_int(x, x.bits, False), i * ebits) if i else aval.cast_int(x, x.bits, False)
+            return aval.cast_int(sh, ebits, esigned)
+        if a.negof is not None and n == 2:
+            V = a.negof
+            vlo, vhi = limb(V, 0), limb(V, 1)
+            if vlo.ko != 0:   # low limb of V certainly non-zero: -V = (~hi, -lo)
+                lo, _ = aval.neg(vlo)
+                return [lo, aval.bitnot(vhi)]
+            if vlo.kz == mask(ebits):   # low limb certainly zero: -V = (-hi, 0)
+                hi, _ = aval.neg(vhi)
+                return [AInt.const(ebits, esigned, 0), hi]
+        return [limb(a, i) for i in range(n)]
+
     def term_of(self, v):
         import symeval
         return symeval.term_of(self, v)
@@ -802,6 +818,11 @@ class Interp:
                 return AFloat(t['bits'], aval.cast_int(a, a.bits, False))
             if isinstance(a, AInt) and t['k'] == 'int' and t['bits'] == a.bits:
                 return aval.cast_int(a, t['bits'], t['signed'])
+            if isinstance(a, AInt) and t['k'] == 'array':
+                et = self.p.ty(t['elem'])
+                n = self.const_len(t['len'], frame.genv)
+                if et['k'] == 'int' and n and et['bits'] * n == a.bits:
+                    return AAgg(tykey, self.split_int(a, et['bits'], et['signed'], n))
             return self.top_of(tykey, frame.genv)
         if kind == 'FloatToFloat':
             if isinstance(a, AFloat) and a.pat is not None and a.pat.is_const():
@@ -1300,7 +1321,37 @@ def _index_slice(I, fr, t, path, rargs, args):
     return ATop('?')
 
 
+def _into_iter_array(I, fr, t, path, rargs, args):
+    a = args[0]
+    if isinstance(a, ARef):
+        v = I.read_place(a.frame, {'l': a.local, 'p': a.proj})
+        if isinstance(v, AAgg):
+            return AAgg('<slice-iter>', [a, AInt.const(64, False, 0), AInt.const(64, False, len(v.fields))])
+    return ATop('?')
+
+
+def _slice_iter_next(I, fr, t, path, rargs, args):
+    it = args[0]
+    if isinstance(it, ARef):
+        v = I.read_place(it.frame, {'l': it.local, 'p': it.proj})
+        if isinstance(v, AAgg) and v.ty == '<slice-iter>':
+            base, idx, n = v.fields
+            if idx.lo >= n.lo:
+                return AAgg('core::option::Option', [], 0)
+            v.fields[1] = AInt.const(64, False, idx.lo + 1)
+            elem = ARef(base.frame, base.local, list(base.proj) + [{'cidx': idx.lo, 'min': 0, 'from_end': False}])
+            return AAgg('core::option::Option', [elem], 1)
+    I.havoc_refs(args)
+    return ATop('?')
+
+
+def _identity_into_iter(I, fr, t, path, rargs, args):
+    return args[0]
+
+
 INTRINSICS = {
+    "core::array::<impl core::iter::IntoIterator for &'a [T; N]>::into_iter": _into_iter_array,
+    "<core::slice::Iter<'a, T> as core::iter::Iterator>::next": _slice_iter_next,
     'core::cmp::PartialOrd::lt': _cmp_method('Lt'),
     'core::cmp::PartialOrd::le': _cmp_method('Le'),
     'core::cmp::PartialOrd::gt': _cmp_method('Gt'),
